@@ -18,6 +18,16 @@ PYMOD = z3.Function('pymod', I, I, I)
 PYMUL = z3.Function('pymul', I, I, I)
 
 
+class OpaqueLiteral:
+    """A literal whose items have different kinds; carried as a constant, never inspected."""
+
+    def __init__(self, items):
+        self.items = items
+
+    def __repr__(self):
+        return f'<opaque literal of {len(self.items)} items>'
+
+
 def lin_decompose(t):
     """(c0, {atom_id: (coef, atom)}) with t == c0 + sum coef*atom, or None."""
     out = {}
@@ -163,8 +173,15 @@ class ExprMixin:
             raise Unsupported('dict unpacking in literal')
         ks = [self.eval(k) for k in e.keys]
         vs = [self.eval(v) for v in e.values]
-        return self.new_dict(self.join_kinds([k.kind for k in ks]),
-                             self.join_kinds([v.kind for v in vs]), list(zip(ks, vs)))
+        try:
+            kk, vk = self.join_kinds([k.kind for k in ks]), self.join_kinds([v.kind for v in vs])
+        except Unsupported:
+            if self.term_mode:
+                raise
+            # a record literal with values of different types ({"run_status": 0, "time": t}): an
+            # opaque value that can only be handed to a callee whose contract does not look at it
+            return const(OpaqueLiteral(list(zip(ks, vs))))
+        return self.new_dict(kk, vk, list(zip(ks, vs)))
 
     def join_kinds(self, kinds):
         ks = set(kinds)
@@ -176,6 +193,9 @@ class ExprMixin:
                 return opt(next(iter(rest)))
         if ks <= {INT, BOOL}:
             return INT
+        inner = {k.args[0] if k.name == 'opt' else k for k in ks if k != NONE}
+        if len(inner) == 1:
+            return opt(next(iter(inner)))
         raise Unsupported(f'heterogeneous element kinds {ks}')
 
     def materialise(self, v: SV, kind: Kind) -> SV:
@@ -212,6 +232,10 @@ class ExprMixin:
                     # a mutable module-level setting: any value of its kind
                     kk = parse_kind(sg)
                     return self.wf_value(SV(kk, z3.Const(f'G_{py.__name__}.{attr}', sort_of(kk))))
+            import logging as _logging
+            if isinstance(py, _logging.Logger) and attr == 'level':
+                # the configured log level is a run-time setting: any integer
+                return SV(INT, z3.Const(f'G_{py.name}.level', z3.IntSort()))
             try:
                 raw = inspect.getattr_static(py, attr) if inspect.isclass(py) else getattr(py, attr)
             except AttributeError:
@@ -599,6 +623,9 @@ class ExprMixin:
         if ka == CONST and kb == CONST:
             return z3.BoolVal(a.py is b.py)
         if ka == CONST or kb == CONST:
+            ev = self.enum_text(a, b)
+            if ev is not None:
+                return ev
             return z3.BoolVal(False)
         if ka.is_ref and kb.is_ref:
             return a.t == b.t
@@ -648,6 +675,9 @@ class ExprMixin:
             return a.t == b.t
         if ka == CONST and kb == CONST:
             return z3.BoolVal(a.py == b.py)
+        ev = self.enum_text(a, b)
+        if ev is not None:
+            return ev
         if (ka.is_list and kb == PYTUPLE) or (kb.is_list and ka == PYTUPLE):
             # list == [literal, ...]
             lv, tv = (a, b) if ka.is_list else (b, a)
@@ -687,12 +717,32 @@ class ExprMixin:
             return z3.BoolVal(False)
         raise Unsupported(f'== on {ka},{kb}')
 
+    def enum_text(self, a, b):
+        """An Enum member compared with a field that is modelled by the member's value text
+        (schema kind `str` for an Enum-valued attribute: distinct members have distinct values)."""
+        import enum
+        for x, y in ((a, b), (b, a)):
+            if x.kind == CONST and isinstance(x.py, enum.Enum) and isinstance(x.py.value, str) and y.kind == STR:
+                vals = [m.value for m in type(x.py)]
+                if len(set(vals)) != len(vals):
+                    raise Unsupported('enum with aliased values')
+                return y.t == z3.StringVal(x.py.value)
+        return None
+
     def obj_eq(self, a, b):
         cls = self.reg.real_class(a.kind.name)
         f = self.static_lookup(cls, '__eq__') if cls else None
         if f is None:
             return self.identical(a, b)
-        r = self.call_function(f, [a, b], {}, owner=cls)
+        if b.kind == NONE:
+            # x == None: the contracts of __eq__ are stated for operands of the class; the real
+            # (small) body is executed instead - it returns NotImplemented or False for None
+            try:
+                r = self.inline(inspect.unwrap(f), [a, b], {}, owner=cls)
+            except Unsupported:
+                r = self.call_function(f, [a, b], {}, owner=cls)
+        else:
+            r = self.call_function(f, [a, b], {}, owner=cls)
         if r.kind == CONST and r.py is NotImplemented:
             # reflected: other.__eq__(self) else identity
             if b.kind.is_obj:
